@@ -25,6 +25,7 @@ def parseStmt (w : String) : Option Stmt :=
   | ['c'] => some .clear
   | ['t'] => some .cont
   | 'j' :: rest => (String.ofList rest).toNat?.map Stmt.goto
+  | 'q' :: rest => (String.ofList rest).toNat?.map Stmt.retTo
   | _ => none
 
 /-- `T<deliver>/<order>` or `D<deliver>/<order>/<stmt>` -/
